@@ -295,10 +295,20 @@ func EachLayoutX(i, n int, gaps []string, f func(l Layout, varied, src string)) 
 	k := 0
 	for _, l := range Layouts {
 		places := len(l.Toks) + 1
-		total := 1
-		for p := 0; p < places; p++ {
-			total *= len(gaps)
+		// the longest layouts get a shorter alphabet, so that no single layout has more than about
+		// half a million spellings
+		gaps := gaps
+		count := func() int {
+			total := 1
+			for p := 0; p < places; p++ {
+				total *= len(gaps)
+			}
+			return total
 		}
+		for count() > 600000 && len(gaps) > 3 {
+			gaps = gaps[:len(gaps)-1]
+		}
+		total := count()
 		for code := 0; code < total; code++ {
 			k++
 			if k%n != i {
